@@ -1,11 +1,13 @@
 package mpb
 
 import (
+	"bytes"
 	"io"
 	"math"
 	"strings"
 
 	"github.com/vbauerster/mpb/v8/cwriter"
+	"github.com/vbauerster/mpb/v8/decor"
 )
 
 // recorder of what reaches the terminal, one entry per Write (= one flush)
@@ -134,3 +136,34 @@ func vhC18Flush2Pop() { vC04Flush(2, true) }
 func vhC18Flush3Pop() { vC04Flush(3, true) }
 
 var _ = io.Discard
+
+// C04 (extender): every extra row handed to flush is exactly one terminal line, whatever the filler wrote
+// (complete lines, possibly followed by an unterminated fragment, which is dropped).
+func vhC04Extender() {
+	vUnwind(6)
+	lines := vInt("lines")
+	frag := vInt("fragmentWidth")
+	vAssume(lines >= 0 && lines <= 3 && frag >= 0 && frag <= 5)
+	rev := vBool("rev")
+	filler := BarFillerFunc(func(w io.Writer, st decor.Statistics) error {
+		for i := 0; i < lines; i++ {
+			io.WriteString(w, vMakeText(4, 1))
+		}
+		_, err := io.WriteString(w, vMakeText(frag, 0))
+		return err
+	})
+	ext := makeExtenderFunc(filler, rev)
+	base := strings.NewReader(vMakeText(10, 1))
+	rows, err := ext(decor.Statistics{}, base)
+	vAssert(err == nil, "C04.extender.noerror")
+	vAssert(len(rows) == 1+lines, "C04.extender.one-row-per-complete-line")
+	for _, r := range rows {
+		var b bytes.Buffer
+		b.ReadFrom(r)
+		vAssert(vTextNL(b.String()) == 1, "C04.extender.each-row-is-one-line")
+	}
+	// the buffer is empty again: the fragment does not leak into the next frame
+	rows2, _ := ext(decor.Statistics{}, strings.NewReader(vMakeText(10, 1)))
+	vAssert(len(rows2) == 1+lines, "C04.extender.no-leftover-in-next-frame")
+	vCover("C04.extender.reach")
+}
